@@ -141,11 +141,12 @@ pub enum MsgKind {
 /// Classification of a tracking report (C10). `None` inside the gap between the exact
 /// eight-interval threshold and its truncation to whole seconds (either answer is accepted).
 pub fn classify_report(leap: u16, ref_time_ns: i128, now_rt_ns: i128, interval_s: f64) -> Option<Status> {
+    // "any other leap status, or a reference time in the future, is Unknown": whatever the leap status
+    if ref_time_ns > now_rt_ns {
+        return Some(Status::Unknown);
+    }
     match leap {
         0..=2 => {
-            if ref_time_ns > now_rt_ns {
-                return Some(Status::Unknown);
-            }
             let age = now_rt_ns - ref_time_ns;
             let thr_exact_ns = {
                 let d = dyadic_of_f64(interval_s * 8.0);
